@@ -625,22 +625,22 @@ theorem siteParams_pin : Gen.Policy.siteParams = [("access_c0", ["n_InWindow"]),
   ("decreaseWindow_a6", ["quota"]),
   ("reorder_c0", ["d_Contains_n"])] := by rfl
 
-theorem shape_pin : Gen.Policy.shape = [("access", [3, 1, 0, 0, 0, 0]),
-  ("add", [6, 5, 4, 0, 0, 0]),
-  ("update", [11, 6, 1, 0, 0, 0]),
-  ("queueOf", [2, 0, 0, 3, 0, 0]),
-  ("discount", [2, 3, 1, 0, 0, 0]),
-  ("makeDead", [2, 0, 1, 0, 0, 0]),
-  ("setMaximumSize", [2, 0, 8, 0, 0, 0]),
-  ("reorderProbation", [2, 1, 1, 0, 0, 0]),
-  ("evictFromWindow", [4, 1, 5, 1, 0, 0]),
-  ("evictFromMain", [14, 0, 29, 0, 0, 0]),
-  ("admit", [2, 0, 2, 3, 0, 0]),
-  ("climb", [2, 0, 1, 0, 0, 0]),
-  ("determineAdjustment", [5, 0, 17, 0, 0, 0]),
-  ("demote", [4, 2, 5, 0, 0, 0]),
-  ("increaseWindow", [7, 8, 9, 0, 0, 0]),
-  ("decreaseWindow", [5, 7, 7, 0, 0, 1]),
-  ("reorder", [1, 0, 0, 0, 0, 0])] := by rfl
+theorem shape_pin : Gen.Policy.shape = [("access", [3, 1, 0, 0, 0, 0, 0]),
+  ("add", [6, 5, 4, 0, 0, 0, 0]),
+  ("update", [11, 6, 1, 0, 0, 0, 0]),
+  ("queueOf", [2, 0, 0, 3, 0, 0, 0]),
+  ("discount", [2, 3, 1, 0, 0, 0, 0]),
+  ("makeDead", [2, 0, 1, 0, 0, 0, 0]),
+  ("setMaximumSize", [2, 0, 8, 0, 0, 0, 0]),
+  ("reorderProbation", [2, 1, 1, 0, 0, 0, 0]),
+  ("evictFromWindow", [4, 1, 5, 1, 0, 0, 0]),
+  ("evictFromMain", [14, 0, 29, 0, 0, 0, 0]),
+  ("admit", [2, 0, 2, 3, 0, 0, 0]),
+  ("climb", [2, 0, 1, 0, 0, 0, 0]),
+  ("determineAdjustment", [5, 0, 17, 0, 0, 0, 0]),
+  ("demote", [4, 2, 5, 0, 0, 0, 0]),
+  ("increaseWindow", [7, 8, 9, 0, 0, 0, 0]),
+  ("decreaseWindow", [5, 7, 7, 0, 0, 1, 0]),
+  ("reorder", [1, 0, 0, 0, 0, 0, 0])] := by rfl
 
 end OtterVerif.Pin.Policy
